@@ -34,44 +34,75 @@ pub enum Node {
     Number(Decimal),
 }
 
-fn gamma(a: Decimal) -> Decimal {
+fn gamma(a: Decimal) -> Option<Decimal> {
+    let coefficients = [
+        Decimal::new(1051423785817219742, 18),
+        Decimal::new(-3456870972220162354, 18),
+        Decimal::new(4512277094668948237, 18),
+        Decimal::new(-2982852253235766557, 18),
+        Decimal::new(1056397115771267131, 18),
+        Decimal::new(-1954287731916458696, 19),
+        Decimal::new(1709705434044412243, 20),
+        Decimal::new(-5719261174043057813, 22),
+        Decimal::new(4633994733599056367, 24),
+        Decimal::new(-2719949084886077039, 27),
+    ];
+    let pi = Decimal::new(3141592653589793238, 18); // 3.14159265358979323846264338327950288419716939937510582
+    let e = Decimal::new(2718281828459045235, 18);
+    let g = Decimal::new(10400511, 6);
+    let half = Decimal::new(5, 1);
+    let factor = Decimal::new(1860382734205265717, 18);
     let mut s = Decimal::new(2485740891387535655, 23);
-    if a < Decimal::new(5, 1) {
-        s += Decimal::new(1051423785817219742, 18) / (Decimal::new(1, 0) - a);
-        s += Decimal::new(-3456870972220162354, 18) / (Decimal::new(2, 0) - a);
-        s += Decimal::new(4512277094668948237, 18) / (Decimal::new(3, 0) - a);
-        s += Decimal::new(-2982852253235766557, 18) / (Decimal::new(4, 0) - a);
-        s += Decimal::new(1056397115771267131, 18) / (Decimal::new(5, 0) - a);
-        s += Decimal::new(-1954287731916458696, 19) / (Decimal::new(6, 0) - a);
-        s += Decimal::new(1709705434044412243, 20) / (Decimal::new(7, 0) - a);
-        s += Decimal::new(-5719261174043057813, 22) / (Decimal::new(8, 0) - a);
-        s += Decimal::new(4633994733599056367, 24) / (Decimal::new(9, 0) - a);
-        s += Decimal::new(-2719949084886077039, 27) / (Decimal::new(10, 0) - a);
-        let compute_sin = (Decimal::new(3141592653589793238, 18) * a).sin(); // 3.14159265358979323846264338327950288419716939937510582
-        let compute_pow = ((a - Decimal::new(10400511, 6)) / Decimal::new(2718281828459045235, 18))
-            .powd(Decimal::new(5, 1) - a);
-        Decimal::new(3141592653589793238, 18)
-            / (compute_sin * s * Decimal::new(1860382734205265717, 18) * compute_pow)
+    if a < half {
+        for (k, coefficient) in coefficients.iter().enumerate() {
+            let denominator = Decimal::new(k as i64 + 1, 0).checked_sub(a)?;
+            s = s.checked_add(coefficient.checked_div(denominator)?)?;
+        }
+        let compute_sin = pi.checked_mul(a)?.checked_sin()?;
+        let compute_pow = a
+            .checked_sub(g)?
+            .checked_div(e)?
+            .checked_powd(half.checked_sub(a)?)?;
+        pi.checked_div(
+            compute_sin
+                .checked_mul(s)?
+                .checked_mul(factor)?
+                .checked_mul(compute_pow)?,
+        )
     } else {
-        s += Decimal::new(1051423785817219742, 18) / a;
-        s += Decimal::new(-3456870972220162354, 18) / (a + Decimal::new(1, 0));
-        s += Decimal::new(4512277094668948237, 18) / (a + Decimal::new(2, 0));
-        s += Decimal::new(-2982852253235766557, 18) / (a + Decimal::new(3, 0));
-        s += Decimal::new(1056397115771267131, 18) / (a + Decimal::new(4, 0));
-        s += Decimal::new(-1954287731916458696, 19) / (a + Decimal::new(5, 0));
-        s += Decimal::new(1709705434044412243, 20) / (a + Decimal::new(6, 0));
-        s += Decimal::new(-5719261174043057813, 22) / (a + Decimal::new(7, 0));
-        s += Decimal::new(4633994733599056367, 24) / (a + Decimal::new(8, 0));
-        s += Decimal::new(-2719949084886077039, 27) / (a + Decimal::new(9, 0));
-        let compute_pow = ((a + Decimal::new(10400511, 6)) / Decimal::new(2718281828459045235, 18))
-            .powd(a - Decimal::new(5, 1));
-        s * Decimal::new(1860382734205265717, 18) * compute_pow
+        for (k, coefficient) in coefficients.iter().enumerate() {
+            let denominator = a.checked_add(Decimal::new(k as i64, 0))?;
+            s = s.checked_add(coefficient.checked_div(denominator)?)?;
+        }
+        let compute_pow = a
+            .checked_add(g)?
+            .checked_div(e)?
+            .checked_powd(a.checked_sub(half)?)?;
+        s.checked_mul(factor)?.checked_mul(compute_pow)
     }
+}
+
+fn lambert_w(x: Decimal, iterations: i32) -> Option<Decimal> {
+    let one = Decimal::new(1, 0);
+    let two = Decimal::new(2, 0);
+    let mut w = Decimal::ZERO;
+    for _ in 0..iterations {
+        let exp_w = w.checked_exp()?;
+        let f = w.checked_mul(exp_w)?.checked_sub(x)?;
+        let correction = w
+            .checked_add(two)?
+            .checked_mul(f)?
+            .checked_div(two.checked_mul(w)?.checked_add(two)?)?;
+        let denominator = exp_w.checked_mul(w.checked_add(one)?)?.checked_sub(correction)?;
+        w = w.checked_sub(f.checked_div(denominator)?)?;
+    }
+    Some(w)
 }
 
 const OVERFLOW: &str = "Decimal overflow";
 const DIVISION: &str = "Division by zero or decimal overflow";
 const DOMAIN: &str = "Argument outside the domain of the function";
+const ILOG_MAX_ITERATIONS: i64 = 64;
 
 pub fn eval(expr: Node) -> Result<Decimal, Box<dyn error::Error>> {
     use self::Node::*;
@@ -111,7 +142,7 @@ pub fn eval(expr: Node) -> Result<Decimal, Box<dyn error::Error>> {
             let sub_result = eval(*sub_expr)?;
             if sub_result >= Decimal::ZERO {
                 if (sub_result % Decimal::new(1, 0)) > Decimal::ZERO {
-                    Ok(gamma(sub_result + Decimal::new(1, 0)))
+                    Ok(gamma(sub_result + Decimal::new(1, 0)).ok_or(OVERFLOW)?)
                 } else {
                     let mut factorial_result = Decimal::new(1, 0);
                     for i in 2..=sub_result.to_i64().ok_or(OVERFLOW)? {
@@ -124,7 +155,7 @@ pub fn eval(expr: Node) -> Result<Decimal, Box<dyn error::Error>> {
             } else if (sub_result % Decimal::new(1, 0)) == Decimal::ZERO {
                 return Err("The factorial function is not defined for {}.".into());
             } else {
-                Ok(gamma(sub_result + Decimal::new(1, 0)))
+                Ok(gamma(sub_result + Decimal::new(1, 0)).ok_or(OVERFLOW)?)
             }
         }
         LambertW(expr) => {
@@ -132,27 +163,29 @@ pub fn eval(expr: Node) -> Result<Decimal, Box<dyn error::Error>> {
             if sub_expr < -Decimal::new(-1, 0).exp() {
                 return Err("The Lambert W function is not defined for {}.".into());
             }
-            let iterations = (Decimal::new(4, 0))
-                .max((sub_expr.log10() / Decimal::new(3, 0)).ceil())
-                .to_i32()
+            let iterations = sub_expr
+                .checked_log10()
+                .map(|log| (log / Decimal::new(3, 0)).ceil().max(Decimal::new(4, 0)))
+                .and_then(|count| count.to_i32())
                 .unwrap_or(4);
-            let mut w = Decimal::ZERO;
-            for _ in 0..iterations {
-                let exp_w = w.exp();
-                w -= (w * exp_w - sub_expr)
-                    / (exp_w * (w + Decimal::new(1, 0))
-                        - (w + Decimal::new(2, 0)) * (w * exp_w - sub_expr)
-                            / (Decimal::new(2, 0) * w + Decimal::new(2, 0)));
-            }
-            Ok(w)
+            Ok(lambert_w(sub_expr, iterations).ok_or(OVERFLOW)?)
         }
         ILog(expr1, expr2) => {
             let mut n = eval(*expr1)?;
             let b = eval(*expr2)?;
+            let log_b = b.checked_log10().ok_or(DOMAIN)?;
             let mut x = Decimal::ZERO;
             while n > Decimal::new(1, 0) {
+                if x >= Decimal::new(ILOG_MAX_ITERATIONS, 0) {
+                    return Err("The iterated logarithm does not converge for this base".into());
+                }
                 x += Decimal::new(1, 0);
-                n = (n.log10() / b.log10()).floor();
+                n = n
+                    .checked_log10()
+                    .ok_or(DOMAIN)?
+                    .checked_div(log_b)
+                    .ok_or(DIVISION)?
+                    .floor();
             }
             Ok(x)
         }
